@@ -21,6 +21,9 @@ type Level struct {
 	Deesc       string   `json:"deescalate"` // typed in this mode to go to the parent
 	Auth        bool     `json:"auth"`       // escalate-auth configured in the library
 	Asks        bool     `json:"asks"`       // the device asks for the secret on entering
+	// Flavour != "": sibling leaf levels with the same Flavour share one prompt and one pattern (the
+	// prompt cannot tell them apart; e.g. configuration / configuration-exclusive / configuration-private).
+	Flavour string `json:"flavour,omitempty"`
 }
 
 // Payload is a workload command (never changes the mode) with the output lines of the device.
@@ -347,7 +350,14 @@ func checkPreconditions(s *Sess) error {
 					who = append(who, k)
 				}
 			}
-			if len(who) != 1 || who[0] != i {
+			// exactly this level -- or, for flavours, exactly the levels of its flavour group
+			var wantWho []int
+			for k, kl := range s.Levels {
+				if k == i || (l.Flavour != "" && kl.Flavour == l.Flavour) {
+					wantWho = append(wantWho, k)
+				}
+			}
+			if fmt.Sprint(who) != fmt.Sprint(wantWho) {
 				return fmt.Errorf("prompt %q of level %d attributed to %v", shown, i, who)
 			}
 			if ask.MatchString(shown) {
@@ -1085,6 +1095,47 @@ func genReparentCase(r *rand.Rand) Sess {
 	return s
 }
 
+// genFlavourCase: a tree with a group of 2-3 sibling leaf levels that share one prompt and pattern
+// (reached by different escalate commands, each de-escalating to the common parent) and a sequence
+// that keeps moving between them. Only situations in which the property's wording determines the
+// outcome are generated: the flavours are leaves (no path passes through one), the device does not
+// start in one, and only the driver moves the device, so whenever the device sits in a flavour the
+// driver has confirmed that very flavour last.
+func genFlavourCase(r *rand.Rand) Sess {
+	for {
+		n0 := 1 + r.Intn(4)
+		k := 2 + r.Intn(2)
+		parent := randomTree(r, n0, []string{"random", "chain", "star"}[r.Intn(3)])
+		p := r.Intn(n0)
+		for i := 0; i < k; i++ {
+			parent = append(parent, p)
+		}
+		variant := []string{"plain", "auth", "plain"}[r.Intn(3)]
+		s := newSess(r, "flavours", variant, parent, r.Intn(2) == 0)
+		n := n0 + k
+		for i := n0; i < n; i++ {
+			s.Levels[i].Flavour = "f"
+			s.Levels[i].Prompt, s.Levels[i].Pattern = s.Levels[n0].Prompt, s.Levels[n0].Pattern
+		}
+		if checkPreconditions(&s) != nil {
+			continue
+		}
+		s.Start = r.Intn(n0)
+		s.Default = r.Intn(n)
+		for c := 6 + r.Intn(7); c > 0; c-- {
+			switch x := r.Intn(20); {
+			case x == 0:
+				s.Ops = append(s.Ops, s.unknownOp(r))
+			case x < 14:
+				s.Ops = append(s.Ops, s.opTowards(r, n0+r.Intn(k)))
+			default:
+				s.Ops = append(s.Ops, s.opTowards(r, r.Intn(n)))
+			}
+		}
+		return s
+	}
+}
+
 func gen(tier string, seed int64) []mon.Case {
 	var cs []mon.Case
 	maxN := 4
@@ -1159,8 +1210,15 @@ func gen(tier string, seed int64) []mon.Case {
 	for i := 0; i < nShapes; i++ {
 		cs = append(cs, mon.MkCase(fmt.Sprintf("c04/shapes-%04d", i), genShapesCase(rng())))
 	}
+	nFlav := 40
+	if tier == "thorough" {
+		nFlav = 400
+	}
 	for i := 0; i < nRep; i++ {
 		cs = append(cs, mon.MkCase(fmt.Sprintf("c04/reparent-%04d", i), genReparentCase(rng())))
+	}
+	for i := 0; i < nFlav; i++ {
+		cs = append(cs, mon.MkCase(fmt.Sprintf("c04/flavours-%04d", i), genFlavourCase(rng())))
 	}
 	return cs
 }
